@@ -1,9 +1,12 @@
 (* Suites.v -- dispatcher over the correspondence suites.  Everything here is
    executable; it is extracted to OCaml and also evaluated inside Coq. *)
-From CoapV Require Import Base Suite07.
+From CoapV Require Import Base Suite01 Suite07.
 
 Definition run (suite : N) (s : list N) : list N :=
   match suite with
+  | 10 => run10 s
+  | 20 | 30 => run20 s
+  | 40 => run40 s
   | 70 => run07 s
   | _ => [998]
   end.
@@ -11,6 +14,10 @@ Definition run (suite : N) (s : list N) : list N :=
 (* does the observed output satisfy the property on this input? *)
 Definition verdict (suite : N) (s out : list N) : bool :=
   match suite with
+  | 10 => verdict10 s out
+  | 20 => verdict20 s out
+  | 30 => verdict30 s out
+  | 40 => verdict40 s out
   | 70 => verdict07 s out
   | _ => false
   end.
@@ -18,6 +25,9 @@ Definition verdict (suite : N) (s out : list N) : bool :=
 (* evidence bucket of a case; 0 = trivial / outside the property's domain *)
 Definition classify (suite : N) (s out : list N) : N :=
   match suite with
+  | 10 => classify10 s
+  | 20 | 30 => classify20 s
+  | 40 => classify40 s
   | 70 => classify07 s
   | _ => 0
   end.
